@@ -230,6 +230,14 @@ def build(kind, desc):
 
 def instance_oracle(kind, desc, highs, want_rp=False):
     rp = build(kind, desc)
+    if desc.get("query_first"):
+        # the model is inspected BEFORE the heuristic runs (sizes, constraints, objective): the postcondition and the
+        # totality claims do not depend on that
+        for q in (rp.get_num_variables, rp.get_constraint_data, rp.get_objective_data):
+            try:
+                q()
+            except Exception:  # noqa: a degenerate model may refuse a query; the heuristic is judged on its own
+                pass
     out = run_heuristic(rp, kind, highs, desc["np_seed"])
     return (out[0], out[1], rp) if want_rp else out
 
@@ -398,6 +406,8 @@ def sweep_instances(ctx, dist, reported):
     rot = 0
     jobs, fams = [], []
     for w, (kinds, desc, fam) in enumerate(work):
+        if w % 3 == 1:
+            desc = dict(desc, query_first=True)
         for kind in kinds:
             # every high cost is used as first value in rotation; one instance in five runs all four
             firsts = HIGHS if w % 5 == 0 else [HIGHS[rot % 4]]
